@@ -10,18 +10,19 @@ const (
 )
 
 type InstSpec struct {
-	ID             string        `json:"id"`
-	Group          string        `json:"group,omitempty"`
-	Priority       int           `json:"prio,omitempty"`
-	Takeover       bool          `json:"takeover,omitempty"`
-	Health         []string      `json:"health,omitempty"` // scripted results ok|bad|slow; repeated last; nil = no checker
-	HasHealth      bool          `json:"has_health,omitempty"`
-	MaxFail        int           `json:"maxfail,omitempty"`
-	Monitored      bool          `json:"monitored,omitempty"`
-	Grace          time.Duration `json:"grace,omitempty"`
-	NoPromoteBlock bool          `json:"no_promote_block,omitempty"`
-	DemoteDur      time.Duration `json:"demote_dur,omitempty"`     // OnDemote takes this long
-	PromoteLinger  time.Duration `json:"promote_linger,omitempty"` // OnPromote returns this long after its context was cancelled
+	ID               string        `json:"id"`
+	Group            string        `json:"group,omitempty"`
+	Priority         int           `json:"prio,omitempty"`
+	Takeover         bool          `json:"takeover,omitempty"`
+	Health           []string      `json:"health,omitempty"` // scripted results ok|bad|slow; repeated last; nil = no checker
+	HasHealth        bool          `json:"has_health,omitempty"`
+	MaxFail          int           `json:"maxfail,omitempty"`
+	Monitored        bool          `json:"monitored,omitempty"`
+	Grace            time.Duration `json:"grace,omitempty"`
+	NoPromoteBlock   bool          `json:"no_promote_block,omitempty"`
+	DemoteDur        time.Duration `json:"demote_dur,omitempty"`         // OnDemote takes this long
+	SlowDemoteMetric time.Duration `json:"slow_demote_metric,omitempty"` // Metrics.IncTransitions takes this long for LEADER->FOLLOWER
+	PromoteLinger    time.Duration `json:"promote_linger,omitempty"`     // OnPromote returns this long after its context was cancelled
 }
 
 type Item struct {
